@@ -34,13 +34,15 @@ type ScnOpts struct {
 	// LateActivation: the gated functions' activation epoch is 5 and no epoch is confirmed at
 	// construction (they start inactive).
 	LateActivation bool
+	// PreCreate: schedule changes delivered between factory construction and container creation.
+	PreCreate []map[string]map[string]uint64
 }
 
 func NewScn(r *harness.Rand, rep *harness.Reporter, o ScnOpts) *Scn {
 	if o.Shards == 0 {
 		o.Shards = 2
 	}
-	uo := gen.UniOpts{Shards: o.Shards, Users: 6, Contracts: 0, GasMap: o.GasMap, NameChange: true}
+	uo := gen.UniOpts{Shards: o.Shards, Users: 6, Contracts: 0, GasMap: o.GasMap, NameChange: true, PreCreate: o.PreCreate}
 	if o.LateActivation {
 		uo.Activation, uo.NoConfirm = 5, true
 	}
